@@ -100,7 +100,7 @@ CORPUS = [
 
 def gen_trees(tier, r):
     trees = list(CORPUS)
-    n = 34 if tier == "quick" else 900
+    n = 26 if tier == "quick" else 900
     maxd = 3 if tier == "quick" else 4
     while len(trees) < n + len(CORPUS):
         d = r.choice([1, 2, 2, 3, 3] if maxd == 3 else [1, 2, 3, 3, 4, 4])
@@ -123,14 +123,13 @@ def run(rep, tier):
     install_known()
     b = common.build_property(PID, TRANSLATORS)
     common.standard_obligations(rep, PID, b)
-    exe = None
-    if b["make_ok"]:
-        exe, log = common.build_driver(PID)
-        rep.obligation("extraction of Model/CallModel.v + Spec/CallSpec.v entry points + OCaml driver build", exe is not None, "" if exe else log[-800:])
+    # the extracted model / spec do not depend on the proofs: when a theorem no longer checks
+    # (e.g. the regenerated decision logic changed) the correspondence run still searches for
+    # a concrete failing input
+    exe, log = common.build_driver(PID)
+    rep.obligation("extraction of Model/CallModel.v + Spec/CallSpec.v entry points + OCaml driver build", exe is not None, "" if exe else log[-800:])
     if exe is None:
-        # the model cannot be run: look for a failing input anyway through the committed driver-less
-        # comparison (implementation vs reference interpreter) -- needs the driver too; report and stop
-        rep.fail("broken-tie", "extracted model/spec driver does not build; correspondence run skipped", case={})
+        rep.fail("broken-tie", "extracted model/spec driver does not build; correspondence run skipped: " + log[-300:], case={})
         return finish(rep, tier)
     from harness import refevm
 
@@ -145,7 +144,7 @@ def run(rep, tier):
     seed0 = common.seed() % 100000
     tasks = [(seed0 + i, t, st, 3 if tier == "quick" else 5) for i, (t, st) in enumerate(trees)]
     out = pool.run_tasks(c09_lib.check_tree, tasks, timeout=60 if tier == "quick" else 240,
-                         total_timeout=70 if tier == "quick" else 1000)
+                         total_timeout=60 if tier == "quick" else 1000)
     n_eval = n_model = 0
     for (seed, tree, static, _), (status, res) in zip(tasks, out):
         st = c09_lib.tree_stats(tree)
